@@ -281,35 +281,31 @@ Definition poison_experiment (path : list op) (nbuf size : nat) (p : byte) : lis
 (* ---------- the library paths, transcribed ---------- *)
 (* registers: 0 = bufio reader / payload buffer, 1 = bufio writer, 2.. = temporaries *)
 
+(* what a handshake hands back, piece by piece: copied out of the buffer, or not buffer memory *)
+Inductive item := ICopy (off n : nat) | ILit (b : bytes).
+Definition item_op (r : reg) (it : item) : op :=
+  match it with ICopy off n => OOutCopy r off n | ILit b => OOutLit b end.
+
 (* server.go Upgrader.Upgrade: br, bw from pbufio; request bytes arrive in br; the selected
-   subprotocol is string(selected) (http.go btsSelectProtocol); the response goes through bw;
-   deferred PutWriter, PutReader *)
-Definition path_upgrade_protocol (req : bytes) (off n : nat) (resp : bytes) : list op :=
-  [OGet 0; OGet 1; OFill 0 req; OOutCopy 0 off n; OFill 1 resp; OOutCopy 1 0 (length resp); OPut 1; OPut 0].
-
-(* same with the deprecated Extension callback: btsSelectExtensions with httphead.SelectCopy
-   copies the option name and every parameter *)
-Definition path_upgrade_extensions (req : bytes) (pieces : list (nat * nat)) (resp : bytes) : list op :=
-  [OGet 0; OGet 1; OFill 0 req] ++ map (fun p => OOutCopy 0 (fst p) (snd p)) pieces ++
-  [OFill 1 resp; OOutCopy 1 0 (length resp); OPut 1; OPut 0].
-
-(* Upgrader.Negotiate with wsflate.Extension: the accepted option is built from package
-   constants (Parameters.Option) *)
-Definition path_upgrade_negotiate (req : bytes) (lits : list bytes) (resp : bytes) : list op :=
-  [OGet 0; OGet 1; OFill 0 req] ++ map OOutLit lits ++
+   subprotocol is string(selected) (http.go btsSelectProtocol), extensions chosen by the
+   deprecated Extension callback are copied by httphead.SelectCopy (name and every parameter),
+   an option accepted through Negotiate (wsflate.Extension) is built from package constants
+   (Parameters.Option); the response goes through bw; deferred PutWriter, PutReader *)
+Definition path_upgrade (req : bytes) (items : list item) (resp : bytes) : list op :=
+  [OGet 0; OGet 1; OFill 0 req] ++ map (item_op 0) items ++
   [OFill 1 resp; OOutCopy 1 0 (length resp); OPut 1; OPut 0].
 
 (* HTTPUpgrader: the header values are net/http's strings (strToBytes view of a GC string);
    strSelectProtocol returns string(v); extensions through SelectCopy *)
-Definition path_httpupgrade (hdr : bytes) (pieces : list (nat * nat)) : list op :=
-  [OArg 0 hdr] ++ map (fun p => OOutCopy 0 (fst p) (snd p)) pieces ++ [ODrop 0].
+Definition path_httpupgrade (hdr : bytes) (items : list item) : list op :=
+  [OArg 0 hdr] ++ map (item_op 0) items ++ [ODrop 0].
 
 (* dialer.go Dialer.Upgrade: the protocol is the caller's own string; for extensions
    matchSelectedExtensions keeps the caller's Name and copies the parameters out of the
    response buffer (Parameters.Copy into a made slice) *)
-Definition path_dial (req resp : bytes) (proto : bytes) (names : list bytes) (pieces : list (nat * nat)) : list op :=
-  [OGet 0; OGet 1; OFill 1 req; OOutCopy 1 0 (length req); OFill 0 resp; OOutLit proto] ++
-  map OOutLit names ++ map (fun p => OOutCopy 0 (fst p) (snd p)) pieces ++ [OPut 1; OPut 0].
+Definition path_dial (req resp : bytes) (items : list item) : list op :=
+  [OGet 0; OGet 1; OFill 1 req; OOutCopy 1 0 (length req); OFill 0 resp] ++
+  map (item_op 0) items ++ [OPut 1; OPut 0].
 
 (* wsutil ControlHandler.HandleClose: p := pbytes.GetLen; io.ReadFull into p;
    ws.ParseCloseFrameData copies the reason (string(payload[2:])); the echo is written; Put *)
